@@ -373,6 +373,7 @@ type World struct {
 	PermuteMethods bool   // reverse interface method order
 	FlattenEmbeds  bool   // inline embedded interface literals' methods
 	PermuteUnion   bool   // reverse union term order
+	AbsorbTerms    string // name of a defined type: a union with a ~U term, U its underlying type, gets the (absorbed) term of that type appended
 	RenameTParams  string // suffix added to generic-signature type parameter names
 	Ctxt           *types.Context
 }
@@ -500,6 +501,15 @@ func (w *World) iface(d *Desc) *types.Interface {
 		terms := make([]*types.Term, len(d.Union))
 		for i, tm := range d.Union {
 			terms[i] = types.NewTerm(tm.Tilde, w.Realize(tm.T))
+		}
+		if nt, ok := w.Named[w.AbsorbTerms]; ok {
+			// ~U | N with N defined over U has the type set of ~U: an identical interface, spelled differently
+			for _, tm := range terms {
+				if tm.Tilde() && types.Identical(tm.Type(), nt.Underlying()) {
+					terms = append(terms, types.NewTerm(false, nt))
+					break
+				}
+			}
 		}
 		if w.PermuteUnion {
 			for i, j := 0, len(terms)-1; i < j; i, j = i+1, j-1 {
